@@ -3,6 +3,7 @@
 #include "mc/mc.hpp"
 #include "libphysica/Numerics.hpp"
 #include <deque>
+#include <memory>
 #include <tuple>
 using namespace libphysica;
 using mc::U_;
@@ -163,7 +164,20 @@ struct Run1D
 	std::vector<std::pair<int, int>> parent;
 	Fresh F;
 	std::pair<uint64_t, uint64_t> static_key;
-	Run1D(const Table& tt) : t(tt), fresh0(tt.x, tt.y) {}
+	Interpolation* other = nullptr;	  // a second object with a different table, queried in between
+	std::vector<double> other_q;
+	Run1D(const Table& tt) : t(tt), fresh0(tt.x, tt.y)
+	{
+		// same domain, different knots: a query at the same abscissa lands in a different segment index
+		std::vector<double> ox, oy;
+		int M = tt.N + 3;
+		for(int i = 0; i < M; i++) { ox.push_back(tt.x.front() + (tt.x.back() - tt.x.front()) * i / (M - 1.0)); oy.push_back((i * 5) % 7 - 3.0); }
+		ox.back() = tt.x.back();
+		bool inc = true;
+		for(int i = 1; i < M; i++) if(!(ox[i] > ox[i - 1])) inc = false;
+		if(inc) { other_store.reset(new Interpolation(ox, oy)); other = other_store.get(); }
+	}
+	std::unique_ptr<Interpolation> other_store;
 
 	void violation(const std::string& cls, int s, int pi, const std::string& op, const std::string& detail)
 	{
@@ -248,6 +262,24 @@ struct Run1D
 		}
 	}
 
+	// "Set_Prefactor and Multiply change all outputs by exactly the stated factor": value and derivatives of a fresh object
+	// carrying prefactor p are p times the unit ones, bit for bit (p is a power of two or its negative here)
+	void scaling_law()
+	{
+		for(size_t l = 0; l < Q.size(); l++)
+			for(int p = 1; p < 4; p++)
+			{
+				auto chk = [&](double got, double unitv, const char* what) {
+					if(!mc::same_bits(got, PREF[p] * unitv) && !(got == 0 && unitv == 0))
+						mc::violation("hist1d", "hist1d|" + table_desc(t) + "|fresh,p=" + mc::dec(PREF[p]) + "|" + what + "(" + mc::hexd(Q[l].x) + ")|output_not_scaled_by_prefactor", std::string(what) + " with prefactor " + mc::dec(PREF[p]) + " = " + mc::dec(got) + ", unit value " + mc::dec(unitv), "N=" + std::to_string(t.N) + " spacing=" + t.spacing + " pref=" + mc::dec(PREF[p]) + " path=- op=" + what + "(" + mc::hexd(Q[l].x) + ")");
+				};
+				chk(F.val[p][l], F.val[0][l], "Interpolate");
+				chk(F.d1[p][l], F.d1[0][l], "Derivative1");
+				chk(F.d2[p][l], F.d2[0][l], "Derivative2");
+				chk(F.d3[p][l], F.d3[0][l], "Derivative3");
+			}
+	}
+
 	bool closed(const Interpolation& w, int pi_expected)
 	{
 		if(!index.count(LState{w.jLast, w.correlated_calls})) return false;
@@ -303,6 +335,16 @@ struct Run1D
 					}
 					else if(!((int)j <= N - 2 && w.x_values[j] <= q && q <= w.x_values[j + 1]))
 						violation("locate_invalid_at_knot", s, pi, "Locate(" + mc::hexd(q) + ")", "index " + std::to_string(j) + " does not bracket the knot");
+					// the same query after a query on a DIFFERENT object (hidden state shared between objects would show here)
+					if(other)
+					{
+						set();
+						other->Interpolate(std::min(std::max(q, t.x.front()), t.x.back()));
+						double vo = w.Interpolate(q);
+						tr++;
+						if(k < 0 ? !mc::same_bits(vo, F.val[pi][l]) : !(std::fabs(vo - F.val[pi][l]) <= tol_value(w, w.jLast, q) + tol_value(w, F.loc[l], q)))
+							violation("value_differs_after_query_on_another_object", s, pi, "Interpolate(" + mc::hexd(q) + ")", "used " + mc::dec(vo) + " fresh " + mc::dec(F.val[pi][l]));
+					}
 					// Interpolate
 					set();
 					double v = w.Interpolate(q);
@@ -510,6 +552,10 @@ struct Run2D
 			digest2(D0, g);
 		}
 		Interpolation_2D w(fresh);
+		// a second object with a much finer grid over a different domain
+		// same domain, coarser grid (3 x 3): a query at the same point lands in a different cell index
+		std::vector<double> ox{x.front(), 0.5 * (x.front() + x.back()), x.back()}, oy{y.front(), 0.5 * (y.front() + y.back()), y.back()};
+		Interpolation_2D other2d(ox, oy, std::vector<std::vector<double>>(3, std::vector<double>(3, 1.0)));
 		double fmaxabs = 0;
 		for(auto& r : f)
 			for(double v : r) fmaxabs = std::max(fmaxabs, std::fabs(v));
@@ -532,6 +578,16 @@ struct Run2D
 					for(size_t i = 0; i < Qx.size(); i++)
 						for(size_t j = 0; j < Qy.size(); j++)
 						{
+							{
+								// same query after a query on a different 2D object (finer grid): state shared between objects would show
+								set();
+								other2d.Interpolate(std::min(std::max(Qx[i].x, x.front()), x.back()), std::min(std::max(Qy[j].x, y.front()), y.back()));
+								double vo = w.Interpolate(Qx[i].x, Qy[j].x);
+								tr++;
+								bool kn = Qx[i].knot >= 0 || Qy[j].knot >= 0;
+								if(kn ? !(std::fabs(vo - FV[pi][i][j]) <= 16 * U_ * 4 * fmaxabs * std::fabs(PREF[pi])) : !mc::same_bits(vo, FV[pi][i][j]))
+									viol("value_differs_after_query_on_another_object", "Interpolate(" + mc::hexd(Qx[i].x) + "," + mc::hexd(Qy[j].x) + ")", "used " + mc::dec(vo) + " fresh " + mc::dec(FV[pi][i][j]));
+							}
 							set();
 							double v = w.Interpolate(Qx[i].x, Qy[j].x);
 							tr++;
@@ -642,6 +698,7 @@ int main(int argc, char** argv)
 			}
 			R.phase1();
 			R.fresh_results();
+			if(mc::shard0()) R.scaling_law();
 			if(mc::shard0() && !mc::asan_mode())
 			{
 				mc::count("states", (long long)R.states.size() * 4);
